@@ -653,16 +653,33 @@ def _r6_outer_path(ck, prog, pt, hook, inner, outer, l, kind, members, tof, want
                 sweep_pos = i
                 break
         if sweep_pos is None and ret is not None:
-            # comprehension form: max([inner(m, ...) for m in members], default=0) / max(0, *[...])
-            comps = [c for c in ret.atoms(sp.Function) if c.func.__name__ == "comp" and any(k.func.__name__ == inner.name for k in c.atoms(sp.Function))]
-            if len(comps) == 1:
-                c = comps[0]
-                gens = [g for g in c.args[1:] if getattr(g.func, "__name__", "") == "gen"]
-                if len(gens) == 1 and len(c.args) == 2:
-                    var, got_members = gens[0].args[0], gens[0].args[1]
-                    got_call = c.args[0].subs(var, R("<member>"))
-                    maximum = ret in (F("max")(c, F("kw_default")(sp.Integer(0))), F("max")(c, sp.Integer(0)), sp.Max(F("max")(c), 0))
-                sweep_pos = len(l.events)
+            # expression forms: max([inner(m, ...) for m in members], default=0) / max(0, *[...]) / max([0, *[...]]) - and, for a
+            # single member, the same with the comprehension already spelled out
+            fnm = lambda x: getattr(getattr(x, "func", None), "__name__", "")      # noqa: E731
+            terms = None
+            if fnm(ret) == "max" or isinstance(ret, sp.Max):
+                terms = list(ret.args)
+                if fnm(ret) == "max" and terms and isinstance(terms[0], sp.Tuple) and all(fnm(t) == "kw_default" for t in terms[1:]):
+                    terms = list(terms[0]) + terms[1:]
+            if terms is not None:
+                zero = any(t == 0 or (fnm(t) == "kw_default" and t.args[0] == 0) for t in terms)
+                rest = [t for t in terms if not (t == 0 or fnm(t) == "kw_default")]
+                rest = [t.args[0] if fnm(t) in ("splat", "max") and len(t.args) == 1 else t for t in rest]
+                if len(rest) == 1 and fnm(rest[0]) == "comp" and any(fnm(k) == inner.name for k in rest[0].atoms(sp.Function)):
+                    c = rest[0]
+                    gens = [g for g in c.args[1:] if fnm(g) == "gen"]
+                    if len(gens) == 1 and len(c.args) == 2 and len(gens[0].args) == 2:
+                        var, got_members = gens[0].args[0], gens[0].args[1]
+                        got_call = c.args[0].subs(var, R("<member>"))
+                        maximum = zero
+                        sweep_pos = len(l.events)
+                elif rest and all(fnm(t) == inner.name and t.args for t in rest):
+                    got_members = sp.Tuple(*[t.args[0] for t in rest])
+                    forms = {t.subs(t.args[0], R("<member>")) for t in rest}
+                    if len(forms) == 1:
+                        got_call = next(iter(forms))
+                    maximum = zero or len(rest) >= 1 and isinstance(ret, sp.Max)
+                    sweep_pos = len(l.events)
         if sweep_pos is None:
             raise AnalysisError(f"{OUTER}: the sweep over the members was not recognised for a {kind} object")
         n_checked += 1
